@@ -66,7 +66,7 @@ def gen_cases(rng: random.Random, n: int, styles, kinds=None):
     from .props import c08
     out = []
     for k in range(n):
-        pool = list(kinds) if kinds else ["mask", "nonzero", "setitem", "setitem", "setitem_mask", "intindex", "cumsum", "where", "trilu", "broadcast_arrays"]
+        pool = list(kinds) if kinds else ["mask", "nonzero", "setitem", "setitem", "setitem_mask", "intindex", "cumsum", "where", "trilu", "broadcast_arrays", "creation"]
         kind = pool[k % len(pool)]
         rank = rng.choice([1, 1, 2, 2, 3])
         shape = tuple(rng.choice([1, 2, 3, 4]) for _ in range(rank))
@@ -175,6 +175,77 @@ def gen_cases(rng: random.Random, n: int, styles, kinds=None):
                 return {n_: _data(rng, s_, dt) for n_, s_ in zip(names, shp)}
             out.append(Case(kind, (kind, tuple(shp), style, dt), names, build,
                             {f"y{i}": f"tg_render broadcast_arrays {CODE[dt]} {nops} {i}" for i in range(nops)}, ref, (concrete, shape, "static")))
+        elif kind == "creation":
+            dt = rng.choice(INT_DTYPES[:-1])
+            form = rng.choice(["full_arg", "full_static", "full_like", "const_arg", "const_like", "arange"])
+            rk = rng.choice([1, 2, 3])
+            cshape = tuple(rng.choice([0, 1, 2, 3]) for _ in range(rk))
+            if form == "full_arg":
+                def build(rk=rk, dt=dt):
+                    sh = ndx.array(shape=(rk,), dtype=ndx.int64); f = ndx.array(shape=(), dtype=impl.dt(dt))
+                    return {"sh": sh, "f": f}, {"y": ndx.full(sh, f)}
+                ins, line = ["sh", "f"], "tg_render creation full_arg"
+                def concrete(rng, sh, cshape=cshape, dt=dt):
+                    return {"sh": np.array(cshape, dtype=np.int64), "f": np.array(5, dtype=dt)}
+                def ref(feeds, dt=dt):
+                    return {"y": np.full(tuple(feeds["sh"].tolist()), feeds["f"], dtype=dt)}
+            elif form == "full_static":
+                def build(cshape=cshape, dt=dt):
+                    f = ndx.array(shape=(), dtype=impl.dt(dt))
+                    return {"f": f}, {"y": ndx.full(cshape, f)}
+                ins, line = ["f"], f"tg_render creation full_static {_tok(cshape)}"
+                def concrete(rng, sh, dt=dt):
+                    return {"f": np.array(6, dtype=dt)}
+                def ref(feeds, cshape=cshape, dt=dt):
+                    return {"y": np.full(cshape, feeds["f"], dtype=dt)}
+            elif form == "full_like":
+                xd = decl_dims(style, cshape, "C")
+                def build(xd=xd, dt=dt):
+                    x = ndx.array(shape=xd, dtype=impl.dt(dt)); f = ndx.array(shape=(), dtype=impl.dt(dt))
+                    return {"x": x, "f": f}, {"y": ndx.full_like(x, f)}
+                ins, line = ["x", "f"], "tg_render creation full_like"
+                def concrete(rng, sh, cshape=cshape, dt=dt):
+                    return {"x": _data(rng, cshape, dt), "f": np.array(4, dtype=dt)}
+                def ref(feeds):
+                    return {"y": np.full_like(feeds["x"], feeds["f"])}
+            elif form == "const_arg":
+                fn = rng.choice(["zeros", "ones", "empty"])
+                v = 1 if fn == "ones" else 0
+                def build(rk=rk, dt=dt, fn=fn):
+                    sh = ndx.array(shape=(rk,), dtype=ndx.int64)
+                    return {"sh": sh}, {"y": getattr(ndx, fn)(sh, dtype=impl.dt(dt))}
+                ins, line = ["sh"], f"tg_render creation const_arg {v} {CODE[dt]}"
+                def concrete(rng, sh, cshape=cshape):
+                    return {"sh": np.array(cshape, dtype=np.int64)}
+                def ref(feeds, v=v, dt=dt):
+                    return {"y": np.full(tuple(feeds["sh"].tolist()), v, dtype=dt)}
+            elif form == "const_like":
+                fn = rng.choice(["zeros_like", "ones_like"])
+                v = 1 if fn == "ones_like" else 0
+                rdt = rng.choice(INT_DTYPES[:-1])
+                xd = decl_dims(style, cshape, "C")
+                def build(xd=xd, dt=dt, fn=fn, rdt=rdt):
+                    x = ndx.array(shape=xd, dtype=impl.dt(dt))
+                    return {"x": x}, {"y": getattr(ndx, fn)(x, dtype=impl.dt(rdt))}
+                ins, line = ["x"], f"tg_render creation const_like {v} {CODE[rdt]}"
+                def concrete(rng, sh, cshape=cshape, dt=dt):
+                    return {"x": _data(rng, cshape, dt)}
+                def ref(feeds, v=v, rdt=rdt):
+                    return {"y": np.full(feeds["x"].shape, v, dtype=rdt)}
+            else:
+                a0, st = rng.choice([0, 0, 2, -3, 5]), rng.choice([1, 1, 2, 3, -1, -2])
+                stopv = rng.choice([0, 1, 4, 7, -4, -7, 10])
+                adt = rng.choice(["int64", "int64", "int32", "int16"])
+                def build(a0=a0, st=st, adt=adt):
+                    n = ndx.array(shape=(), dtype=ndx.int64)
+                    return {"n": n}, {"y": ndx.arange(a0, n, st, dtype=impl.dt(adt))}
+                ins, line = ["n"], f"tg_render creation arange {a0} {st} {CODE[adt]}"
+                def concrete(rng, sh, stopv=stopv):
+                    return {"n": np.array(stopv, dtype=np.int64)}
+                def ref(feeds, a0=a0, st=st, adt=adt):
+                    return {"y": np.arange(a0, int(feeds["n"]), st, dtype=adt)}
+            out.append(Case(kind, (kind, form, rk, style, dt) + ((line,) if form in ("arange", "const_arg", "const_like", "full_static") else ()), ins, build,
+                            {"y": line}, ref, (concrete, shape, "static")))
         elif kind == "intindex":
             idt = rng.choice(INT_DTYPES[:-1])
             ishape = rng.choice([(), (0,), (1,), (3,), (2, 2)])
